@@ -36,7 +36,7 @@ struct CrystalSpec {
 
 enum FileMut {
   FM_NONE = 0, FM_NO_UCELL, FM_DUP_UCELL, FM_BAD_UCELL, FM_NO_L, FM_SHORT_ATOM, FM_NONNUM_ATOM, FM_LONG_LINE, FM_NO_EOF,
-  FM_TRUNC_TEXT, FM_RANDOM_BYTES, FM_EMPTY, FM_LONG_NAME, FM_BAD_S, FM_EXTRA_COLS, FM_CRLF, FM_NO_ATOMS, FM_NO_FINAL_NL, FM_N
+  FM_TRUNC_TEXT, FM_RANDOM_BYTES, FM_EMPTY, FM_LONG_NAME, FM_BAD_S, FM_EXTRA_COLS, FM_CRLF, FM_NO_ATOMS, FM_NO_FINAL_NL, FM_NUM_SYNTAX, FM_N
 };
 extern const char* const kFileMutNames[FM_N];
 
